@@ -321,6 +321,9 @@ func phaseMain(root string) {
 		}
 		alive = append(alive, s.Kind+":"+s.Expr)
 		if s.Kind == "conly" {
+			// not registered for the behavioural runners (reflection cannot tell `[]uint8` from `[]byte`); C03 drives
+			// them by hand (U8 records)
+			fmt.Fprintf(&sb, "\tcorr.RegisterConly(%q, decl.%s{}, decl_ins.%sInspector{}, %q)\n", s.Name, s.Name, s.Name, s.Expr)
 			continue
 		}
 		fmt.Fprintf(&sb, "\tcorr.RegisterShape(\"grammar\", %q, decl.%s{}, decl_ins.%sInspector{}, %q, %q, %q)\n", s.Name, s.Name, s.Name,
